@@ -12,6 +12,8 @@ type GenOpts struct {
 	Stratified bool // steer references so that most grammars are stratified (checked afterwards by Strata)
 	LRFree     bool // unguarded references only to lower-numbered nonterminals
 	Trims      bool // wrap some sub-expressions in text.LeftTrim / text.RightTrim (no reference semantics: C02/C07 only)
+	LeftTrims  bool // with Trims: LeftTrim only (RightTrim moves its operand's end in place: known finding K1)
+	Ends       bool // allow parser.End() as a leaf (sequences that end at the end of the input)
 	Ops        []Op // operator pool (nil: all)
 }
 
@@ -40,7 +42,7 @@ func synNullable(e *Expr) bool {
 	switch e.Op {
 	case OpRune:
 		return false
-	case OpEmpty, OpOpt, OpMany, OpSepBy, OpNT:
+	case OpEmpty, OpOpt, OpMany, OpSepBy, OpNT, OpEnd:
 		return true
 	case OpLTrim, OpRTrim, OpSingle, OpSuppress:
 		return synNullable(e.Kids[0])
@@ -73,7 +75,7 @@ func (gn *generator) gen(depth int, c genCtx) *Expr {
 	e := gn.gen0(depth, c)
 	if gn.o.Trims && gn.r.Intn(5) == 0 {
 		op := OpLTrim
-		if gn.r.Intn(3) == 0 {
+		if gn.r.Intn(3) == 0 && !gn.o.LeftTrims {
 			op = OpRTrim
 		}
 		w := gn.g.Mk(op, e)
@@ -91,6 +93,8 @@ func (gn *generator) gen0(depth int, c genCtx) *Expr {
 			return gn.leafRune()
 		case k < 52:
 			return g.Mk(OpEmpty)
+		case k < 58 && gn.o.Ends:
+			return g.Mk(OpEnd)
 		default:
 			var cands []int
 			for i := range g.NTs {
@@ -249,7 +253,7 @@ func (g *Grammar) Sample(r *rand.Rand, e *Expr, depth int, out *[]byte, maxLen i
 	case OpRune:
 		*out = append(*out, e.C)
 		return true
-	case OpEmpty:
+	case OpEmpty, OpEnd:
 		return true
 	case OpNT:
 		return g.Sample(r, g.NTs[e.NT], depth+1, out, maxLen)
